@@ -328,6 +328,120 @@ def r12_8(chk, tier):
             chk.fail('R12.8', site, (b if db else a)['file'], (b if db else a)['l'], 'slice::%s differs between the two libraries: only jsonpath: [%s]; only jmespath: [%s]' % (
                 name, '; '.join(show(x) for x in da[:3]), '; '.join(show(x) for x in db[:3])), {'only_jsonpath': [show(x) for x in da], 'only_jmespath': [show(x) for x in db]}, a['q'])
 
+def r12_9(chk, facts):
+    """A callback that runs once per selected node must not consume what it captured."""
+    chk.rule('R12.9', 'per-node callbacks: inside the lambdas that json_replace / json_query hand to evaluate() (invoked once per selected node) no '
+                      'variable declared outside the lambda is passed through std::move / std::forward; otherwise the second and later nodes '
+                      'receive a moved-from value', floor=4)
+    n = 0; seen = set()
+    for fn in facts.functions:
+        if fn.get('dep') or fn.get('body') is None or not fn['file'].endswith('json_query.hpp') or (fn['file'], fn['l']) in seen: continue
+        lambdas = [x for x in A.walk(fn['body']) if x.get('k') == 'LambdaExpr' and x.get('body') is not None]
+        if not lambdas: continue
+        seen.add((fn['file'], fn['l']))
+        chk.analysed(fn)
+        for i, lam in enumerate(lambdas):
+            n += 1
+            inner = set(y.get('id') for y in A.walk(lam['body']) if y.get('k') in ('VarDecl', 'ParmVarDecl'))
+            bad = None
+            for c in A.calls_in(lam['body']):
+                if A.callee_name(c) in ('move', 'forward') and (c.get('cq') or '').startswith('std::'):
+                    for a in c.get('args') or []:
+                        r = A.strip(a, casts=True)
+                        if r is not None and r.get('k') == 'DeclRefExpr' and r.get('dk') in ('Var', 'ParmVar') and r.get('id') not in inner: bad = (c, r.get('n'))
+            site = U.site(fn, 'callback#%d@%d' % (i + 1, lam.get('l', 0) - fn['l']))
+            if bad is None: chk.ok('R12.9', site, {'line': lam.get('l')})
+            else: chk.fail('R12.9', site, fn['file'], bad[0].get('l'), '%s: the per-node callback passes the captured `%s` through std::%s: the first selected node takes the value, every further node gets what is left of it' % (fn['n'], bad[1], A.callee_name(bad[0])), None, fn['q'])
+    chk.require(n >= 4, 'R12.9: only %d callbacks found in json_query.hpp' % n)
+
+def r12_10(chk, facts):
+    """Normalized paths: what escape_string writes for a member name, json_location::parse reads back."""
+    from .. import peval as P
+    from .c18 import writer_table
+    chk.rule('R12.10', 'normalized-path escapes: for each of the 256 characters, jsonpath::escape_string writes it raw or as backslash + letter, and '
+                       'the quoted_string_escape_char state of json_location_parser::parse maps that letter back to the same character (a name '
+                       'containing a quote or a backslash must resolve to the same member)', floor=256)
+    ws = [f for f in facts.functions if f['n'] == 'escape_string' and f['file'].endswith('jsonpath_utilities.hpp') and f.get('body') is not None and not f.get('dep')]
+    ps = [f for f in facts.functions if f['n'] == 'parse' and f['file'].endswith('json_location.hpp') and 'json_location_parser' in (f.get('cls') or '') and f.get('body') is not None and not f.get('dep')]
+    chk.require(ws and ps, 'R12.10: escape_string / json_location_parser::parse not found')
+    en = U.enum_value_names(U.enum_by_suffix(facts, 'json_location_state'))
+    inv = {v: k for k, v in en.items()}
+    sw = None; pfn = ps[0]
+    for cand in ps:
+        for x in A.walk_no_lambda(cand['body']):
+            if x.get('k') == 'SwitchStmt' and A.ref_name(x.get('cond')) == 'state': sw = x; pfn = cand; break
+        if sw is not None: break
+    chk.analysed(pfn)
+    chk.require(sw is not None and 'quoted_string_escape_char' in inv, 'R12.10: state switch of json_location_parser::parse not found')
+    items = P.PEval.switch_items(sw['body'])
+    start = None
+    for i, (labels, st) in enumerate(items):
+        if any(lo != 'default' and lo <= inv['quoted_string_escape_char'] <= hi for lo, hi in labels): start = i
+    chk.require(start is not None, 'R12.10: no case for quoted_string_escape_char')
+    state_id = next((x.get('id') for x in A.walk(pfn['body']) if x.get('k') == 'VarDecl' and x.get('n') == 'state'), None)
+    rtable = {}
+    for c in range(256):
+        pe = P.PEval(facts, pfn, max_depth=1)
+        env = {('deref', 'p_'): c, state_id: inv['quoted_string_escape_char']}
+        pe.run_items(items, start, env, (), 0)
+        pushes = [e.args[0] & 0xff for e in pe.effects if e.kind == 'call' and e.name == 'buffer.push_back' and not e.guards and e.args and isinstance(e.args[0], int)]
+        errs = [e for e in pe.effects if e.kind == 'set' and e.name == 'ec' and not e.guards]
+        if pushes and not errs: rtable[c] = pushes[0]
+    chk.require(rtable.get(0x5c) == 0x5c, 'R12.10: the location parser does not map an escaped backslash to a backslash: %s' % rtable)
+    for fn in U.one_per_inst(ws)[:1]:
+        chk.analysed(fn)
+        wt = writer_table(chk, facts, fn, {})
+        for c in range(256):
+            ung, seq, line = wt[c]
+            cv = c if c < 128 else c - 256
+            chs = repr(chr(c)) if 32 <= c < 127 else '0x%02x' % c
+            site = U.site(fn, 'char=%s' % chs)
+            if ung == [cv] and len(seq) == 1 and c not in (0x27, 0x5c): chk.ok('R12.10', site, None)
+            elif len(ung) == 2 and len(seq) == 2 and ung[0] == 0x5c and rtable.get(ung[1] & 0xff) == c: chk.ok('R12.10', site, {'char': chs, 'written': '\\' + chr(ung[1]), 'read_back': chs})
+            else:
+                shown = ''.join(chr(x & 0xff) if 32 <= (x & 0xff) < 127 else '\\x%02x' % (x & 0xff) for x in seq[:4] if isinstance(x, int))
+                back = rtable.get(seq[1] & 0xff) if len(seq) >= 2 and isinstance(seq[1], int) else None
+                chk.fail('R12.10', site, fn['file'], line, 'a member name character %s is written into a normalized path as "%s", json_location::parse reads that back as %s' % (
+                    chs, shown, ('0x%02x' % back) if back is not None else 'an error / something else'), {'reader_table': {chr(k): v for k, v in sorted(rtable.items())}}, fn['q'])
+
+def r12_11(chk, facts):
+    """Shunting-yard: when a binary operator arrives, operators on the stack are emitted first iff they bind at least as tightly
+    (strictly tighter for a right-associative arrival)."""
+    chk.rule('R12.11', 'operator stack: the loop that emits stacked operators before pushing a binary operator pops exactly when the stacked '
+                       'operator binds tighter, or equally tight and the arriving operator is left-associative (truth table of the loop condition '
+                       'over precedence order x associativity); otherwise `a - b + c` groups as `a - (b + c)`', floor=6)
+    fns = [f for f in facts.functions if f['n'] == 'push_token' and f['file'].endswith('jsonpath_parser.hpp') and f.get('body') is not None and not f.get('dep')]
+    chk.require(fns, 'jsonpath push_token not found')
+    fn = U.one_per_inst(fns)[0]
+    chk.analysed(fn)
+    loops = []
+    for x in A.walk_no_lambda(fn['body']):
+        if x.get('k') == 'WhileStmt' and 'precedence_level' in A.text(x.get('cond')) and 'is_right_associative' in A.text(x.get('cond')): loops.append(x)
+    chk.require(loops, 'R12.11: operator pop loop not found in push_token')
+    def ev(e, env):
+        s2 = A.strip(e, casts=True)
+        if s2 is None: return True
+        k = s2.get('k')
+        if k == 'BinaryOperator' and s2.get('op') == '&&': return ev(s2['lhs'], env) and ev(s2['rhs'], env)
+        if k == 'BinaryOperator' and s2.get('op') == '||': return ev(s2['lhs'], env) or ev(s2['rhs'], env)
+        if k == 'UnaryOperator' and s2.get('op') == '!': return not ev(s2['sub'], env)
+        c = G.comparison(s2)
+        if c and 'precedence_level' in A.text(c[1]) and 'precedence_level' in A.text(c[2]):
+            def side(x): return env['tok'] if 'tok' in A.text(x) else env['top']
+            a, b = side(c[1]), side(c[2])
+            return {'<': a < b, '>': a > b, '<=': a <= b, '>=': a >= b, '==': a == b, '!=': a != b}[c[0]]
+        if k in A.CALLS and A.callee_name(s2) == 'is_right_associative': return env['right']
+        return True       # iterator / kind tests: hold while an operator is on the stack
+    for i, lp in enumerate(loops):
+        for tokp, topp, name in ((3, 4, 'stacked binds looser'), (4, 4, 'equal precedence'), (4, 3, 'stacked binds tighter')):
+            for right in (False, True):
+                got = ev(lp['cond'], {'tok': tokp, 'top': topp, 'right': right})
+                want = (topp < tokp) or (topp == tokp and not right)     # a lower level binds tighter
+                site = U.site(fn, 'pop loop#%d %s %s-assoc' % (i + 1, name, 'right' if right else 'left'))
+                if got == want: chk.ok('R12.11', site, {'pops': got})
+                else: chk.fail('R12.11', site, fn['file'], lp.get('l'), 'push_token: with %s and a %s-associative arriving operator the loop %s the stacked operator; it must %s (left-associative operators of equal precedence group left to right)' % (
+                    name, 'right' if right else 'left', 'pops' if got else 'keeps', 'pop' if want else 'keep'), None, fn['q'])
+
 def r12_7(chk, facts):
     chk.rule('R12.7', 'selector identities: every selector constructed with the running id consumes it (`selector_id++`), so two selectors of one '
                       'expression never share the slot that caches their value', floor=2)
@@ -448,6 +562,9 @@ def run(chk, tier, only_rule=None):
     r12_4(chk, facts)
     r12_6(chk, facts)
     r12_7(chk, facts)
+    r12_9(chk, facts)
+    r12_10(chk, facts)
+    r12_11(chk, facts)
     r12_8(chk, tier)
     r12_5(chk, tier)
     c05.r05_6(chk, tier, units=['jsonpath'], floor=80)
